@@ -23,8 +23,10 @@ EraseOwn(p, kind) == IF IsRating(p) THEN [PV("rating", IF p.v = kind THEN "own" 
                      ELSE IF p.t \in {"list", "tuple"} THEN [p EXCEPT !.items = PMatV([k \in 1..Len(p.items) |-> EraseOwn(p.items[k], kind)])]
                      ELSE p
 
+\* the construction parameters; attributes a model acquires besides them ("extra") are C14's business, not a reason to
+\* call two calls unrelated
 ModelParams(m) == [kind |-> m.kind, mu |-> m.mu, sigma |-> m.sigma, beta |-> m.beta, kappa |-> m.kappa,
-                   tau |-> m.tau, limit |-> m.limit, gamma |-> m.gamma, extra |-> m.extra]
+                   tau |-> m.tau, limit |-> m.limit, gamma |-> m.gamma]
 ModelNoKind(m) == [ModelParams(m) EXCEPT !.kind = ""]
 OutErased(e) == [kind |-> e.out.kind, exc |-> e.out.exc, value |-> Erase(e.out.value)]
 
